@@ -31,6 +31,11 @@ FIRST = {
 _386 = "extensionally equal to the original with a 64-bit int; differs only under GOARCH=386, where the unchanged library already fails its own suite (DESIGN section 1, Environment)"
 NOT_CLAIMED = {(6, "C03/a"): _386, (6, "C06/a"): _386, (6, "C06/b"): _386, (6, "C07/a"): _386, (6, "C07/b"): _386, (6, "C11/a"): _386,
                (4, "C11/a"): "a rejected text leaves the receiver partly overwritten: C11 demands rejection (still given); no property speaks about the receiver after an error"}
+# seeds whose precondition was removed by a later repair of /repo: the patch still applies, but the demonstration no
+# longer fails (the patched tree is not defective any more); archived with the history, no longer run as a defect
+_LEAF = "retired: relied on DataPayload / ProprietaryMACCommandPayload.MarshalBinary returning the value's own storage; since /repo 02a1cb6 (finding C10-5) these return copies, so the shortcut seeded here writes only into a private buffer and the demonstration passes"
+NOT_CLAIMED.update({(4, "C07/a"): _LEAF, (5, "C04/b"): _LEAF, (6, "C10/b"): _LEAF,
+                    (6, "C15/a"): "retired: the unguarded index was reachable only for device channels outside the plan; since /repo cdfefd0 (finding C14-4) the planner drops those before any use, the demonstration passes"})
 n = 0
 for pid in sorted(os.listdir(root)):
     for v, letter in (("a", la), ("b", lb)):
@@ -44,7 +49,7 @@ for pid in sorted(os.listdir(root)):
         for c, body, rc in re.findall(r"== check (\w+) on patched tree\n(.*?)rc=(\d+)", out, re.S):
             checks.append({"check": c, "exit": int(rc), "violation": "VIOLATION" in body,
                            "no_failing_input_found": "no-failing-input-found" in body})
-        if clean != 0 or not patched:
+        if (clean != 0 or not patched) and not str(NOT_CLAIMED.get((rnd, "%s/%s" % (pid, v)), "")).startswith("retired"):
             print("NOT CONFIRMED", d); continue
         meta = json.load(open(os.path.join(d, "meta.json")))
         meta["round"] = rnd
